@@ -649,6 +649,18 @@ def replay(ctx, payload):
             alt, keep, mu = lcu.preprocess_lcu_coefficients_for_reversible_sampling(list(cs), eps)
             return d.one({'op': 'c19.spec.lcu', 'coeffs': frs(cs), 'eps': fr(eps), 'alt': [int(x) for x in alt],
                           'keep': [int(x) for x in keep], 'mu': int(mu)}) is True
+        if fn in ('thc', 'sparse') and 'params' in case:
+            pr = case['params']
+            if fn == 'thc':
+                thc = importlib.import_module('openfermion.resource_estimates.thc.compute_cost_thc')
+                res = [int(x) for x in thc.compute_cost(*pr)]
+                lam, dE = pr[1], pr[2]
+            else:
+                sp = importlib.import_module('openfermion.resource_estimates.sparse.costing_sparse')
+                res = [int(x) for x in sp.cost_sparse(*pr)]
+                lam, dE = pr[1], pr[3]
+            it = d.one({'op': 'c19.iters', 'lam': fr(lam), 'dE': fr(dE)})
+            return it is not None and res[1] == res[0] * it
         if fn == 'QR':
             k, val = ut.QR(case['L'], case['M'])
             return d.one({'op': 'c19.spec.qr', 'L': case['L'], 'M': case['M'], 'k': int(k), 'val': int(val), 'bound': 24}) is True
